@@ -283,11 +283,85 @@ func sortDefs() []*SortSpec {
 	}
 }
 
+// sortNamed: the named key types of the gsort catalogue (each gets a String() method in the
+// definition file): one per kind of underlying type a struct field can have.
+var sortNamed = [][2]string{{"Category", "int"}, {"State", "bool"}, {"Label", "string"}, {"Score", "float64"},
+	{"Level", "uint8"}, {"Glyph", "rune"}, {"Span", "time.Duration"}}
+
+// sortKeyDefs: every named key type read through its String() accessor — and, where the type
+// has a `<` of its own (everything but bool), also plainly — as the only, first, middle and last
+// key of a sorter, value and pointer forms.  whole=true: one package per named type holding all
+// of it (the key field carries up to eight gsort tags, with and without accessor); otherwise
+// one package per (type, position, access, form).
+func sortKeyDefs(whole bool) []*SortSpec {
+	var out []*SortSpec
+	pos := []string{"only", "first", "last", "mid"}
+	for _, nt := range sortNamed {
+		typ, under := nt[0], nt[1]
+		var all *SortSpec
+		if whole {
+			all = &SortSpec{Type: "Rec", Label: "named_" + under + "_all_positions", Fields: []SortField{
+				{"K", typ, nil}, {"A", "string", nil}, {"B", "int", nil}}}
+			out = append(out, all)
+		}
+		n := 0
+		for _, acc := range []string{",String()", ""} {
+			if acc == "" && under == "bool" {
+				continue // a named bool is a key only through an accessor
+			}
+			for pi, p := range pos {
+				name := strings.ToUpper(p[:1]) + p[1:]
+				if acc == "" {
+					name = "Plain" + name
+				}
+				if (pi+n)%2 == 1 {
+					name = "*" + name
+				}
+				s := all
+				if !whole {
+					lab := "named_" + under + "_" + p
+					if acc == "" {
+						lab += "_plain"
+					}
+					s = &SortSpec{Type: "Rec", Label: lab, Fields: []SortField{
+						{"K", typ, nil}, {"A", "string", nil}, {"B", "int", nil}}}
+					out = append(out, s)
+				}
+				k := map[string]string{"only": "1", "first": "1", "last": "2", "mid": "2"}[p]
+				s.Fields[0].Tags = append(s.Fields[0].Tags, name+","+k+acc)
+				switch p {
+				case "first":
+					s.Fields[1].Tags = append(s.Fields[1].Tags, name+",2")
+				case "last":
+					s.Fields[1].Tags = append(s.Fields[1].Tags, name+",1")
+				case "mid":
+					s.Fields[1].Tags = append(s.Fields[1].Tags, name+",1")
+					s.Fields[2].Tags = append(s.Fields[2].Tags, name+",3")
+				}
+			}
+			n++
+		}
+	}
+	// built-in key kinds that the other entries do not use: every one as first and as last key
+	basics := []string{"int8", "int16", "int64", "uint", "uint16", "uint32", "uint64", "uintptr", "float32", "byte", "rune", "string", "bool"}
+	s := &SortSpec{Type: "Rec", Label: "every_basic_kind", Fields: []SortField{{"Z", "int", nil}}}
+	for i, b := range basics {
+		f := SortField{Name: fmt.Sprintf("F%d", i), Type: b, Tags: []string{fmt.Sprintf("By%d,1", i), fmt.Sprintf("*Then%d,2", i)}}
+		s.Fields = append(s.Fields, f)
+		s.Fields[0].Tags = append(s.Fields[0].Tags, fmt.Sprintf("By%d,2", i), fmt.Sprintf("*Then%d,1", i))
+	}
+	return append(out, s)
+}
+
 func sortNearMiss() []*SortSpec {
 	return []*SortSpec{
 		{Type: "Rec", Label: "duplicate_priority", Fields: []SortField{
 			{"A", "string", []string{"Recs,1"}}, {"B", "string", []string{"Recs,1"}}}},
 		{Type: "Rec", Label: "notstruct"},
+		// one sorter name in the value and in the pointer form: two sorters, one type name
+		{Type: "Rec", Label: "sorter_in_both_forms", Fields: []SortField{
+			{"A", "int", []string{"*Recs,1"}}, {"B", "string", []string{"Recs,1"}}}},
+		{Type: "Rec", Label: "bad_priority", Fields: []SortField{{"A", "int", []string{"Recs,one"}}}},
 	}
 }
 
@@ -426,7 +500,7 @@ func quickSpecs(r *rand.Rand) []*Spec {
 		}
 	}
 	out = append(out, multiDefs()...)
-	out = append(out, otherToolSpecs()...)
+	out = append(out, otherToolSpecs(false)...)
 	return out
 }
 
@@ -441,7 +515,7 @@ func hasLackingOrDup(e *EnumSpec) bool {
 	return false
 }
 
-func otherToolSpecs() []*Spec {
+func otherToolSpecs(thorough bool) []*Spec {
 	var out []*Spec
 	for _, e := range errDefs() {
 		out = append(out, &Spec{Tool: "gerror", Kind: "cover", Err: e})
@@ -451,6 +525,9 @@ func otherToolSpecs() []*Spec {
 	}
 	for _, s := range sortDefs() {
 		out = append(out, &Spec{Tool: "gsort", Kind: "cover", Sort: s})
+	}
+	for _, s := range sortKeyDefs(!thorough) {
+		out = append(out, &Spec{Tool: "gsort", Kind: "keys", Sort: s})
 	}
 	for _, s := range sortNearMiss() {
 		out = append(out, &Spec{Tool: "gsort", Kind: "nearmiss", Sort: s})
@@ -503,6 +580,6 @@ func thoroughSpecs(r *rand.Rand, cap int) []*Spec {
 		}
 	}
 	out = append(out, multiDefs()...)
-	out = append(out, otherToolSpecs()...)
+	out = append(out, otherToolSpecs(true)...)
 	return out
 }
